@@ -203,7 +203,7 @@ pub fn envelope_setter(r: &mut Rng, ns: usize, light: bool) -> Setter {
         5 => Setter::Align(r.chance(0.5)),
         6 => Setter::Speed(*r.pick(&[0.25, 0.5, 0.8, 1.0, 1.2, 1.4, 2.0, 4.0])),
         7 => Setter::Alpha(*r.pick(&[0.0, 0.1, 0.3, 0.42, 0.55, 0.8])),
-        8 => Setter::Beta(if r.chance(0.75) { 0.0 } else { *r.pick(&[0.1, 0.2, 0.4, 0.8]) }), // beta > 0 costs ~1 ms per frame (postfilter)
+        8 => Setter::Beta(if r.chance(0.9) { 0.0 } else { *r.pick(&[0.1, 0.2, 0.4, 0.8]) }), // beta > 0 costs ~1 ms per frame (postfilter)
         _ => Setter::HalfTone(*r.pick(&[-24.0, -12.0, -3.5, 0.0, 1.0, 7.0, 24.0])),
     }
 }
